@@ -1,7 +1,7 @@
 SPECIFICATION Spec
 CONSTANTS
     M = 256
-    W = 16
+    W = 127
     DocW = 16
     AllPairs = TRUE
     Band = 0
